@@ -542,6 +542,8 @@ COLV = {
     "c2": ["col", "str", ["1", "."]],
     "c3": ["col", "str", ["w"]],
     "n1": ["col", "int", [4, "?"]],
+    # three rows: with c1/c2 (two rows) a looped table can grow and shrink while staying looped
+    "c4": ["col", "str", ["u", "v w", "?"]],
 }
 CATV = {
     "k1": [["p", "c1"]],
@@ -576,7 +578,7 @@ def value_names(level, flavour):
         return ["b1", "b2", "b0"]
     if level == "block":
         return ["k1", "k2", "k3"]
-    return ["c1", "c2", "c3"] + (["n1"] if flavour == "bin" else [])
+    return ["c1", "c2", "c3"] + (["n1"] if flavour == "bin" else []) + ["c4"]
 
 
 def value_model(level, name, flavour):
@@ -820,6 +822,10 @@ def gen_ops(level, flavour):
         ops.append(["set_wrong", "a"])
     if level == "category":
         ops.append(["set_raw", "ab"])
+        if flavour == "text":
+            # reading CIFCategory.row_count caches the value in the object: the value itself is not part of
+            # the statement (result 'any'), the cached state it leaves behind is part of the explored state
+            ops.append(["row_count"])
     return ops
 
 
@@ -894,6 +900,10 @@ def apply_model(m, op, level, flavour, root_cats):
         return m, ("val", False)
     if k == "eq_other":
         return m, ("val", False)
+    if k == "row_count":
+        if not m:
+            raise Refuse(None)
+        return m, ("any",)
     if k in ("serialize", "reparse"):
         cats = all_categories(m, level)
         if not all(cat_serialisable(c) for c in cats):
@@ -984,6 +994,8 @@ def apply_impl(im, op, m):
         return any(res)
     if k == "eq_other":
         return bool(x == dict(m)) or bool(x == None) or not bool(x != 5)  # noqa: E711
+    if k == "row_count":
+        return x.row_count
     if k == "serialize":
         return im.root.serialize()  # the documented entry point; a bare block / category needs a name first
     if k == "reparse":
